@@ -47,6 +47,8 @@ def run(ctx, rep):
         key = "ContextKey:%s" % tr.rsplit("::", 1)[-1]
         if len(imps) == 1 and imps[0]["derived"]:
             r.ok(key, "derived", "", nontrivial=False)
+        elif tr == "std::cmp::PartialEq" and len(imps) == 1 and common.eq_structural(lib, "processor::ContextKey") is None:
+            r.ok(key, "hand-written, structural for every pair of variants", "")
         else:
             r.bad(key, "ContextKey's %s is not the derived one: row keys may compare differently from `=`" % tr, "")
     u = lib.adts.get("duplication_remover::Uniquness")
@@ -58,6 +60,9 @@ def run(ctx, rep):
     je = [i for i in lib.impls if i.get("trait") == "std::cmp::PartialEq" and i["self"] == "json_value::JsonValue"]
     if len(je) == 1 and je[0]["derived"]:
         r.ok("JsonValue:PartialEq", "derived (structural over NumberValue::eq)", "", nontrivial=False)
+    elif len(je) == 1 and common.eq_structural(lib, "json_value::JsonValue") is None:
+        r.ok("JsonValue:PartialEq", "hand-written, evaluated for all 36 pairs of variants: structural (different "
+             "variants unequal, equal variants compared field by field with ==)", "", nontrivial=True)
     else:
         r.bad("JsonValue:PartialEq", "PartialEq for JsonValue is hand-written: coherence with Hash is no longer "
               "given by the Float invariant alone", "")
